@@ -433,7 +433,6 @@ func binarySinks(o *hc.Out, dir string, t *table, op opts, inj injection, rec, f
 // refuseMatrix: every format that refuses × the unspellable cell in the first / a middle / the last
 // record (and first / middle / last field) × every sink, in-process and through the binary
 func refuseMatrix(o *hc.Out, dir string) {
-	csvqBin = buildCsvq(dir)
 	word := func(i, j int) string { return []string{"x", "yz", "w"}[(i+j)%3] }
 	for _, inj := range injections {
 		if inj.kind == "value_cr" || inj.kind == "value_u100000" {
